@@ -250,11 +250,9 @@ namespace Pistache::Http::Header
             os << directiveString(d);
             if (hasDelta(d))
             {
-                auto delta = d.delta();
-                if (delta.count() > 0)
-                {
-                    os << "=" << delta.count();
-                }
+                // always written: "max-age" without delta-seconds is not
+                // what max-age=0 means and CacheControl::parseRaw rejects it
+                os << "=" << d.delta().count();
             }
 
             if (i < directives_.size() - 1)
